@@ -110,4 +110,10 @@ func init() {
 			"(3) close(responseReady) is deferred first in makeRequest and exists nowhere else, makeRequest runs only inside the sync.Once, a successful Do always stores the response before validation can fail; (4) every error return of a streaming client Receive first records the error with SetError, which closes the request pipe on every path (blocked Sends fail with io.EOF), Read reports the recorded error first, SetError keeps the first error; "+
 			"(5) every handler conn Close closes the request body on every exit; (6) io.EOF is only ever tested with errors.Is.",
 		"bounded time, goroutine leaks and blocking as run-time facts, HTTP/2 flow control, schedules and delays at synchronisation points.")
+
+	prop("C13", "Concurrent calls on shared clients and handlers never interfere",
+		[]string{"hb-response-ready", "lock-discipline", "pool-ownership", "pool-hygiene", "shared-immutable", "globals-init-only", "send-recv-disjoint", "ready-closed-once"},
+		"Static race-freedom argument by ownership: (1) objects reachable from a Client/Handler are written only under construction (allocated in the same function, option application, or constructors) and package-level variables only in init; (2) pooled buffers given back to the pool never escape the function (no stored/returned alias of the buffer or its Bytes()), Put is deferred or the last use, the retained final-envelope buffer is never Put; (de)compressors are touched only by get/put helpers with Reset on both sides and exactly one put per get; "+
+			"(3) the one cross-goroutine hand-off inside a call is ordered by close(responseReady): every user-callable method touches fields written by the request goroutine only after an unconditional receive from responseReady, which is closed exactly once, deferred; duplexHTTPCall.err is only accessed under errMu, with nothing blocking called under the lock; (4) the send and receive sides of a stream-capable client conn write disjoint fields.",
+		"interleavings as such, races inside net/http or user codecs/compressors, value integrity under the race detector, per-call confinement of values handed to user code.")
 }
